@@ -285,7 +285,35 @@ pub struct NetSim<P: Protocol> {
     pub storms: u64,
 }
 
+thread_local! {
+    static SIM_V4: std::cell::Cell<bool> = const { std::cell::Cell::new(false) };
+}
+
+/// While set (per thread), the simulated network is an IPv4 one: nodes listen on IPv4-mapped addresses (what a
+/// dual-stack socket reports for IPv4 peers) instead of native IPv6 ones. Returns the previous setting.
+pub fn set_sim_v4(on: bool) -> bool {
+    SIM_V4.with(|c| c.replace(on))
+}
+
+pub fn sim_v4() -> bool {
+    SIM_V4.with(|c| c.get())
+}
+
+/// maps a literal IPv6 test address into the address family of the simulated network
+pub fn fam(a: SocketAddr) -> SocketAddr {
+    match a {
+        SocketAddr::V6(v) if sim_v4() && v.ip().to_ipv4_mapped().is_none() => {
+            let o = v.ip().octets();
+            format!("[::ffff:10.250.{}.{}]:{}", o[14], o[15], v.port()).parse().unwrap()
+        }
+        _ => a,
+    }
+}
+
 pub fn sim_addr(n: usize) -> SocketAddr {
+    if sim_v4() {
+        return format!("[::ffff:10.1.{}.{}]:{}", n / 200, n % 200 + 1, 3210 + n).parse().unwrap();
+    }
     format!("[fd00::{:x}]:{}", n + 1, 3210 + n).parse().unwrap()
 }
 
